@@ -80,6 +80,10 @@ BROAD_MODES = {
     "grow_full_geom_far_dirns_bounds": ({"up": {"growing.ndirs_initial": 1, "growing.safety.full_geom_step": True,
                                                 "general.safety_step_thresh": 5.0, "growing.delta_scale_new_dirns": 20.0},
                                          "prob": "rosen3", "lo": [-1.5, -0.5, -1.0], "hi": [0.9, 1.7, 0.8]}, {"random", "n3"}),
+    # the radius reduction inside a growing-phase safety step (growing.safety.reduce_delta) only acts when some point is
+    # further than 10 rho from the incumbent: long new directions again
+    "grow_reduce_delta_far_dirns": ({"up": {"growing.ndirs_initial": 1, "growing.safety.reduce_delta": True, "general.safety_step_thresh": 5.0,
+                                            "growing.delta_scale_new_dirns": 20.0}, "prob": "nzr3"}, {"random", "n3"}),
     "grow_inverse": ({"up": {"growing.ndirs_initial": 1}, "prob": "inv"}, {"random", "n3"}),
     # regression
     "reg_npt5_extra1": ({"npt": 5, "up": {"regression.num_extra_steps": 1}}, set()),
